@@ -777,7 +777,7 @@ Plan generate(const std::string& mode, uint64_t seed, uint64_t run) {
   g.vo.maxWidth = 4;
   g.vo.maxStr = 40;
   size_t nops;
-  if (mode == "fault")
+  if (mode == "fault" || mode == "faultenum")
     nops = size_t(r.range(3, 25));
   else
     nops = r.chance(1, 5) ? size_t(r.range(40, 80)) : size_t(r.range(5, 40));
